@@ -17,7 +17,7 @@ EXPLANATION = (
     "appended result is built from the two popped objects; (2) the only store into the score table is dominated by est.frame_id == "
     "gt.frame_id and by `radius is None or is_better_than(radius)` with the radius looked up by the ground truth's label, the table starts "
     "as (NaN, False), rows are estimates and columns ground truths; (3) the emptiness / FP-validation decision table (8 rows) including "
-    "`no ground truth in FP validation -> []` and no `L[0]` on an empty list; (4) neither input list is mutated by get_object_results or "
+    "`no ground truth in FP validation -> []` and no `L[0]` on an empty list - the FP-validation flag of a path is the set of EvaluationTask members the path admits (from is_fp_validation(), `== EvaluationTask.X` or `in (...)` tests) compared with the members is_fp_validation() covers, which must be every FP_VALIDATION* member; (4) neither input list is mutated by get_object_results or "
     "any resolved callee (mutation summaries over the call graph; the pops act on copies); (5) GT-less results are created one per "
     "leftover estimate, in order. Does not decide: that numpy's nanarg*/unravel_index/delete do what their names say; duplicates of "
     "equal objects in the id-based matchers (list.remove with runtime equality)."
